@@ -5,11 +5,11 @@
     BookGraph/Equations.v (the defining equations as executable checks; the same checker runs on
     the C++ state); constants, negateScore and the record layout: gen/BookConsts.v, regenerated
     from the source on every run. *)
-From Coq Require Import ZArith NArith List Bool.
+From Coq Require Import ZArith NArith List Bool Permutation.
 From Texel Require Import gen.BookConsts BookGraph.NMap BookGraph.BookGraph BookGraph.Equations
   BookGraph.ScoreFacts BookGraph.CodecProofs BookGraph.LocalProofs BookGraph.LinkProofs
   BookGraph.UniqueProofs BookGraph.FixProofs BookGraph.GlobalProofs BookGraph.DepthProofs BookGraph.PathProofs
-  BookGraph.BookTheorems.
+  BookGraph.FuelProofs BookGraph.ReadProofs BookGraph.BookTheorems.
 Import ListNotations.
 Local Open Scope Z_scope.
 
@@ -100,13 +100,11 @@ Theorem C19_checker_sound : forall bd g, check_all bd g = [] <-> all_equations b
 Proof. exact check_all_sound. Qed.
 Print Assumptions C19_checker_sound.
 
-(** the global statement: for every operation history ... every node satisfies all equations.
-    [C19_fixpoint_statement false] is about updateScores as it is in the tree and is FALSE
-    (finding: the path error of a node whose own negamax score changed is not recomputed);
-    [C19_fixpoint_statement true] is about the code with hooks/fix-c19-patherr-requeue.patch; it is
-    proved below for all histories without readFromFile (C19_fixpoint_fixed, with the acyclicity
-    and parity hypotheses put on the successor relation); histories with readFromFile are not
-    proved (no counterexample in any run of the check against the patched tree). *)
+(** REGRESSION WITNESS.  [C19_fixpoint_statement false] is the global statement for updateScores as
+    it was before the fix df196fb (a node whose own negamax score changed was not re-queued for the
+    path-error pass); it is false, and the check replays the witness history on the implementation
+    on every run: if the implementation shows the stale path error again, that is a VIOLATION.
+    The statement for the code as it is now is C19_fixpoint below. *)
 Definition C19_fixpoint_statement (requeue : bool) : Prop := fixpoint_statement requeue.
 
 Theorem C19_fixpoint_refuted : ~ C19_fixpoint_statement false.
@@ -143,8 +141,8 @@ Print Assumptions C19_link_restores_depth.
     (chess inputs from an acyclic successor relation in which the side to move alternates, book
     below 2^31 - 1 nodes, model fuel not exhausted / no assert of the code failing) every node
     satisfies its negamax equation, both expansion-cost equations, the depth equation and the
-    link equations.  Not covered: the path-error equations (false for the unchanged code, see
-    C19_fixpoint_refuted) and readFromFile. *)
+    link equations (path errors need the re-queueing, see C19_fixpoint_refuted; the full statement
+    for the code as it is: C19_fixpoint). *)
 Theorem C19_fixpoint_partial : forall (succ : N -> N -> option N) (rk : N -> Z) (wtm : N -> bool),
   (forall p m c, succ p m = Some c -> rk p < rk c) ->
   (forall p m c, succ p m = Some c -> wtm c = negb (wtm p)) ->
@@ -170,19 +168,67 @@ Theorem C19_depth_is_shortest_distance : forall g,
 Proof. exact depth_shortest. Qed.
 Print Assumptions C19_depth_is_shortest_distance.
 
-(** the global statement for the code WITH hooks/fix-c19-patherr-requeue.patch (requeue = true),
-    proved for all histories without readFromFile: every node satisfies ALL its defining
-    equations (negamax, both expansion costs, both path errors, depth, links).
-    Hypotheses: chess inputs from an acyclic successor relation with alternating side to move,
-    white to move at the root, fewer than 2^31 - 1 nodes, and the run stays in the modelled
-    fragment ([bk_err] = 0: fuel, asserts of the C++ code, no path error reaching INT_MAX). *)
-Theorem C19_fixpoint_fixed : forall (succ : N -> N -> option N) (rk : N -> Z) (wtm : N -> bool),
+(** the fuel of the model's recursions suffices on acyclic graphs: no operation of a history can
+    end with the error code "fuel exhausted" (so the only ways to leave the modelled fragment
+    are a failing assert of the C++ code and a path error reaching INT_MAX) *)
+Theorem C19_fuel_suffices : forall (succ : N -> N -> option N) (rk : N -> Z) (wtm : N -> bool),
+  (forall p m c, succ p m = Some c -> rk p < rk c) ->
+  (forall p m c, succ p m = Some c -> wtm c = negb (wtm p)) ->
+  forall rq bd g o, GI succ wtm bd g -> op_ok succ g o ->
+  bk_err g <> ERR_FUEL -> bk_err (apply_op rq bd g o) <> ERR_FUEL.
+Proof. exact apply_op_nofuel. Qed.
+Print Assumptions C19_fuel_suffices.
+
+(** HEADLINE, for the code as it is (requeue = true): after every history of addPosToBook /
+    setSearchResult / addPending / removePending / readFromFile operations, every node satisfies
+    ALL its defining equations (negamax, both expansion costs, both path errors, depth, links).
+    [steps_ok]: the chess inputs of every operation come from one successor relation (acyclic,
+    side to move alternates) and are complete for the moves between book nodes; a file that is
+    read is a permutation of the records of all nodes; fewer than 2^31 - 2 nodes; hashes / moves /
+    times fit their C++ types; and in no step an assert of the C++ code fails or a path error
+    reaches INT_MAX (error code < ERR_ASSERT).  No hypothesis about fuel. *)
+Theorem C19_fixpoint : forall (succ : N -> N -> option N) (rk : N -> Z) (wtm : N -> bool),
+  (forall p m c, succ p m = Some c -> rk p < rk c) ->
+  (forall p m c, succ p m = Some c -> wtm c = negb (wtm p)) ->
+  forall bd, costs_nonneg bd ->
+  forall root addr ops, wtm root = true -> (root < U64_BOUND)%N ->
+  steps_ok succ bd (newBook root addr) ops ->
+  all_equations bd (run true bd (newBook root addr) ops) /\ bk_err (run true bd (newBook root addr) ops) = 0%N.
+Proof. exact fixpoint_reload. Qed.
+Print Assumptions C19_fixpoint.
+
+(** the same without reload operations, in the simpler form: one condition on the final error code *)
+Theorem C19_fixpoint_no_reload : forall (succ : N -> N -> option N) (rk : N -> Z) (wtm : N -> bool),
   (forall p m c, succ p m = Some c -> rk p < rk c) ->
   (forall p m c, succ p m = Some c -> wtm c = negb (wtm p)) ->
   forall bd, costs_nonneg bd ->
   forall root addr ops, wtm root = true ->
   ops_ok succ true bd (newBook root addr) ops ->
   let g := run true bd (newBook root addr) ops in
-  bk_err g = 0%N -> all_equations bd g.
-Proof. exact fixpoint_fixed. Qed.
-Print Assumptions C19_fixpoint_fixed.
+  (bk_err g < ERR_ASSERT)%N -> all_equations bd g /\ bk_err g = 0%N.
+Proof. exact fixpoint_nofuel. Qed.
+Print Assumptions C19_fixpoint_no_reload.
+
+(** "Saving and reloading the book reproduces the same graph and scores": readFromFile on any
+    permutation of the records written for a reachable state [G] (no search pending) yields a
+    state that satisfies all equations and agrees with [G] at every node on children, parents,
+    best move, search score, search time, depth, negamax score, both expansion costs and both path
+    errors *)
+Theorem C19_reload_reproduces : forall (succ : N -> N -> option N) (rk : N -> Z) (wtm : N -> bool),
+  (forall p m c, succ p m = Some c -> rk p < rk c) ->
+  (forall p m c, succ p m = Some c -> wtm c = negb (wtm p)) ->
+  forall bd, costs_nonneg bd ->
+  forall root addr ops recs addrs sl, wtm root = true -> (root < U64_BOUND)%N ->
+  steps_ok succ bd (newBook root addr) ops ->
+  let G := run true bd (newBook root addr) ops in
+  bk_pending G = [] -> read_ok succ G recs sl ->
+  (bk_err (opRead true bd G recs addrs sl) < ERR_ASSERT)%N ->
+  let g' := opRead true bd G recs addrs sl in
+  all_equations bd g' /\
+  forall n, In n (bk_keys G) ->
+    In n (bk_keys g') /\ children g' n = children G n /\ (forall x, In x (parents g' n) <-> In x (parents G n)) /\
+    ni_move (info g' n) = ni_move (info G n) /\ ni_score (info g' n) = ni_score (info G n) /\
+    ni_time (info g' n) = ni_time (info G n) /\
+    depth g' n = depth G n /\ score_of g' n = score_of G n.
+Proof. exact reload_reproduces. Qed.
+Print Assumptions C19_reload_reproduces.
